@@ -11,6 +11,7 @@ import (
 	"math/rand/v2"
 	"os"
 	"path/filepath"
+	"runtime/debug"
 	"slices"
 	"sort"
 	"strings"
@@ -268,7 +269,7 @@ func init() {
 		Units: []Unit{
 			{Name: "shapes", QShards: 2, TShards: 8, Run: c19Shapes},
 			{Name: "random", TShards: 4, Run: c19Random},
-			{Name: "deep", Run: c19Deep},
+			{Name: "deep", QShards: 3, TShards: 4, Run: c19Deep},
 			{Name: "recross", QShards: 3, TShards: 8, Run: c19Recross},
 			{Name: "edits", TShards: 4, Run: c19Edits},
 			{Name: "widenested", QShards: 4, TShards: 6, Run: c19WideNested},
@@ -322,6 +323,12 @@ func c18Streams_(c *Ctx) {
 				path := ""
 				if it.file {
 					ext := codecByName(it.format).ext
+					if r.IntN(4) == 0 {
+						// a name that says nothing, or something else, about the content: File goes by what is in the file
+						// (compression endings apart), not by what it is called
+						ext = pick(r, []string{"", ".txt", ".dat", ".bam", ".cram", ".vcf", ".fastq", ".fa", ".bed.bak", ".SAM", ".nwk.1", ".gzip", ".z"})
+						k.Count("files_with_other_name_endings", 1)
+					}
 					path = filepath.Join(dir, fmt.Sprintf("f%d%s", k.Idx, ext))
 					data := x
 					switch r.IntN(8) {
@@ -909,6 +916,22 @@ func shapeDigest(root *newick.Node) string {
 }
 
 func c19Deep(c *Ctx) {
+	// "Deeper than any recursion limit": the limit is lowered to 16 MiB of goroutine stack for this worker, so
+	// that recursion which would need 10^7 levels to exhaust Go's default of 1 GiB shows at 10^5 … 10^6 levels.
+	// (The traversals under test keep their own stack on the heap; the references used here do, too.)
+	debug.SetMaxStack(16 << 20)
+	combs := []struct{ depth, side int }{{1 << 20, 0}, {1 << 20, 1}, {600000, 2}}
+	for i, cb := range combs {
+		c.Case(int64(100+i), func(k *K) {
+			root := combTree(cb.depth, 1, cb.side)
+			k.Input("comb_depth", cb.depth)
+			k.Input("legs_side", cb.side)
+			checkTraversals(k, root, true)
+			k.Count("deep_trees", 1)
+			k.Count("deep_combs", 1)
+			k.Nontrivial([]byte(fmt.Sprint("comb", cb)))
+		})
+	}
 	depths := []int{c.N(100000, 1000000), c.N(100000, 1000000), c.N(100000, 1000000), 1<<20 + 3, 1<<21 + 1}
 	if c.Thorough {
 		depths = append(depths, 1<<22+5, 1<<23+1)
